@@ -97,11 +97,11 @@ func ZZ_C03_Programs(sv *zzsv.T) {
 	g := newGen(sv, sv.Param("depth", 1, 2))
 	// one condition of the program (the k-th one generated) is a constant
 	// expression of the chosen kind; the others stay symbolic
-	g.small = sv.Param("c03.small", 1, 0) == 1
+	g.small = sv.Param("c03.small", 1, 1) == 1
 	g.constKind = 1 + sv.Choice("constkind", 6)
-	g.constAt = sv.Choice("constat", sv.Param("constat", 1, 3))
+	g.constAt = sv.Choice("constat", sv.Param("constat", 1, 2))
 	p := &zzProg{}
-	if sv.Param("c03.full", 0, 1) == 1 {
+	if sv.Param("c03.full", 0, 0) == 1 {
 		p = g.program()
 	} else {
 		p.main = append(p.main, g.compound(1), &zzStmt{kind: sTrace, e: g.id()})
